@@ -464,7 +464,7 @@ func c23dRun(line string) string {
 // block that carries an announcement itself), scheduled changes on most blocks, mostly chains
 
 func c23dGen(r *vhRng) string {
-	n := 2 + r.Intn(6)
+	n := 3 + r.Intn(6)
 	parents := make([]int, n)
 	num := make([]int, n+1)
 	forks := 0
@@ -490,7 +490,7 @@ func c23dGen(r *vhRng) string {
 		if r.Chance(3, 5) {
 			anns = append(anns, fmt.Sprintf("%ds%d.%d", i, r.Pick(0, 0, 1, 2), i))
 		}
-		if r.Chance(2, 5) {
+		if r.Chance(1, 6) {
 			best := 0
 			if r.Chance(1, 2) {
 				best = r.Intn(num[i] + 1)
@@ -503,7 +503,7 @@ func c23dGen(r *vhRng) string {
 	var ops []string
 	remaining := n
 	for budget := 3*n + 4; remaining > 0 && budget > 0; budget-- {
-		if r.Chance(1, 4) {
+		if remaining < n-1 && r.Chance(1, 4) {
 			var cands []int
 			for i := 1; i <= n; i++ {
 				if isImp[i] && i != root && anc(root, i) {
@@ -513,9 +513,25 @@ func c23dGen(r *vhRng) string {
 			if len(cands) == 0 {
 				continue
 			}
-			b := cands[r.Intn(len(cands))]
-			ops = append(ops, fmt.Sprintf("fin %d", b))
-			root = b
+			// a burst of 1..3 finalisations, each at or below the previous one's descendants, small steps first
+			for k := 1 + r.Intn(3); k > 0 && len(cands) > 0; k-- {
+				b := cands[r.Intn(len(cands))]
+				if r.Chance(2, 3) {
+					for _, c := range cands {
+						if num[c] < num[b] {
+							b = c
+						}
+					}
+				}
+				ops = append(ops, fmt.Sprintf("fin %d", b))
+				root = b
+				cands = cands[:0]
+				for i := 1; i <= n; i++ {
+					if isImp[i] && i != root && anc(root, i) {
+						cands = append(cands, i)
+					}
+				}
+			}
 			continue
 		}
 		var cands []int
